@@ -38,7 +38,7 @@ def main():
         head = subprocess.run(['git', '-C', REPO, 'rev-parse', '--short', 'HEAD'], capture_output=True, text=True).stdout.strip()
         for c in checks:
             t0 = time.time()
-            env = dict(os.environ, VT_SUMMARY='1', VERIF_REPO=tmp)
+            env = dict(os.environ, VT_SUMMARY='1', VERIF_REPO=tmp, VT_EVIDENCE_DIR=os.path.join(tmp, '.vt-evidence'))
             p = subprocess.run([os.path.join(VERIF, 'check'), c, 'quick'], capture_output=True, text=True, cwd=VERIF, env=env)
             lines = [l for l in p.stdout.splitlines() if l.startswith(('VIOLATION', '  what', 'INCONCLUSIVE'))]
             results[c] = {'exit': p.returncode, 'silent': p.returncode == 0, 'wall_s': round(time.time() - t0, 1),
@@ -49,7 +49,6 @@ def main():
                 print('   ', l[:300])
     finally:
         shutil.rmtree(tmp, ignore_errors=True)
-        subprocess.run(['git', '-C', VERIF, 'checkout', '--', 'evidence'], capture_output=True)
     out = os.path.join(d, 'result.json')
     prev = json.load(open(out)) if os.path.exists(out) else {}
     prev.update(results)
